@@ -80,8 +80,24 @@ def _class_level_names(stmt):
     out = []
 
     def walk(n):
-        if isinstance(n, (ast.FunctionDef, ast.AsyncFunctionDef, ast.Lambda, ast.ClassDef, ast.ListComp, ast.SetComp,
-                          ast.DictComp, ast.GeneratorExp)) and n is not stmt:
+        if isinstance(n, (ast.FunctionDef, ast.AsyncFunctionDef, ast.Lambda)):
+            # only what is evaluated in the enclosing scope: decorators, defaults, annotations
+            a = n.args
+            parts = list(getattr(n, 'decorator_list', [])) + list(a.defaults) + [d for d in a.kw_defaults if d is not None]
+            for arg in list(getattr(a, 'posonlyargs', [])) + a.args + a.kwonlyargs + [a.vararg, a.kwarg]:
+                if arg is not None and arg.annotation is not None:
+                    parts.append(arg.annotation)
+            if getattr(n, 'returns', None) is not None:
+                parts.append(n.returns)
+            for part in parts:
+                walk(part)
+            return
+        if isinstance(n, ast.ClassDef):
+            for part in list(n.decorator_list) + list(n.bases) + [k.value for k in n.keywords]:
+                walk(part)
+            return
+        if isinstance(n, (ast.ListComp, ast.SetComp, ast.DictComp, ast.GeneratorExp)):
+            walk(n.generators[0].iter)        # the first iterable is evaluated in the enclosing scope
             return
         if isinstance(n, ast.Assign):
             walk(n.value)
